@@ -4,7 +4,7 @@
     process_normal_command, handle_exec), the AOF log.  One [Frame] event of one
     connection is one step (single command thread, server.rs:367-422). *)
 From Ferrous Require Import Base.Bytes Generated Model.Resp Model.Types Model.Glob Model.Strings
-  Model.Lists Model.ZSets Model.Streams Model.Scan.
+  Model.Lists Model.ZSets Model.Streams Model.Scan Model.PubSub Model.Lua.
 Open Scope Z_scope.
 
 Fixpoint nodup_b (l : list bytes) : list bytes :=
@@ -125,29 +125,35 @@ Record server := {
   s_trk : list tracker;            (* 16 trackers *)
   s_conns : list (Z * conn);
   s_password : option bytes;
-  s_aof : list (list frame)        (* appended commands, newest first *)
+  s_aof : list (list frame);       (* appended commands, newest first *)
+  s_pubsub : pubsub                (* PubSubManager (Model/PubSub.v) *)
 }.
 Definition init_server (pw : option bytes) : server :=
   {| s_dbs := repeat empty_db 16; s_trk := repeat empty_tracker 16; s_conns := [];
-     s_password := pw; s_aof := [] |}.
+     s_password := pw; s_aof := []; s_pubsub := ps_init |}.
 
 Definition get_db (s : server) (i : Z) : db := nth (Z.to_nat i) (s_dbs s) empty_db.
 Definition get_trk (s : server) (i : Z) : tracker := nth (Z.to_nat i) (s_trk s) empty_tracker.
 Definition set_db (s : server) (i : Z) (d : db) : server :=
   {| s_dbs := list_set (s_dbs s) (Z.to_nat i) d; s_trk := s_trk s; s_conns := s_conns s;
-     s_password := s_password s; s_aof := s_aof s |}.
+     s_password := s_password s; s_aof := s_aof s; s_pubsub := s_pubsub s |}.
 Definition set_trk (s : server) (i : Z) (t : tracker) : server :=
   {| s_dbs := s_dbs s; s_trk := list_set (s_trk s) (Z.to_nat i) t; s_conns := s_conns s;
-     s_password := s_password s; s_aof := s_aof s |}.
+     s_password := s_password s; s_aof := s_aof s; s_pubsub := s_pubsub s |}.
 Definition set_conn (s : server) (c : Z) (cn : conn) : server :=
   {| s_dbs := s_dbs s; s_trk := s_trk s; s_conns := zset_ c cn (s_conns s);
-     s_password := s_password s; s_aof := s_aof s |}.
+     s_password := s_password s; s_aof := s_aof s; s_pubsub := s_pubsub s |}.
+(** removal of a connection (EOF / read error: server.rs:600-609; cleanup_connections): the
+    connection goes and PubSubManager::unsubscribe_all drops its subscriptions *)
 Definition del_conn (s : server) (c : Z) : server :=
   {| s_dbs := s_dbs s; s_trk := s_trk s; s_conns := zremove c (s_conns s);
-     s_password := s_password s; s_aof := s_aof s |}.
+     s_password := s_password s; s_aof := s_aof s; s_pubsub := unsubscribe_all (s_pubsub s) c |}.
+Definition set_pubsub (s : server) (p : pubsub) : server :=
+  {| s_dbs := s_dbs s; s_trk := s_trk s; s_conns := s_conns s;
+     s_password := s_password s; s_aof := s_aof s; s_pubsub := p |}.
 Definition log_aof (s : server) (parts : list frame) : server :=
   {| s_dbs := s_dbs s; s_trk := s_trk s; s_conns := s_conns s;
-     s_password := s_password s; s_aof := parts :: s_aof s |}.
+     s_password := s_password s; s_aof := parts :: s_aof s; s_pubsub := s_pubsub s |}.
 
 (** a new connection is Authenticated at once when no password is configured (server.rs:443-448) *)
 Definition connect (s : server) (c : Z) : server :=
@@ -171,8 +177,11 @@ Definition exec_db (now : Z) (d : db) (name : bytes) (parts : list frame) (oracl
   | None =>
   match exec_streams now d name parts oracle with
   | Some r => Some r
-  | None => exec_scan now d name parts oracle
-  end end end end.
+  | None =>
+  match exec_scan now d name parts oracle with
+  | Some r => Some r
+  | None => exec_scripts now d name parts oracle
+  end end end end end.
 
 Definition h_randomkey (d : db) (parts : list frame) (oracle : option frame) : frame :=
   if negb (len parts =? 1) then r_err else
@@ -259,7 +268,7 @@ Definition normal_command (now : Z) (s : server) (c : Z) (dbi : Z) (parts : list
         if negb (len parts =? 1) then (r_err, s)
         else (r_ok, {| s_dbs := map (fun _ => empty_db) (s_dbs s);
                        s_trk := map (fun td => mark_all (fst td) (map fst (d_data (snd td)))) (combine (s_trk s) (s_dbs s));
-                       s_conns := s_conns s; s_password := s_password s; s_aof := s_aof s |})
+                       s_conns := s_conns s; s_password := s_password s; s_aof := s_aof s; s_pubsub := s_pubsub s |})
       else if beq name (bs "RANDOMKEY") then (h_randomkey (get_db s dbi) parts oracle, s)
       else if beq name (bs "AUTH") then h_auth s 0 parts      (* "AUTH" => self.handle_auth(parts, 0) *)
       else if beq name (bs "QUIT") then (r_ok, s)
@@ -268,7 +277,7 @@ Definition normal_command (now : Z) (s : server) (c : Z) (dbi : Z) (parts : list
         let d := get_db s dbi in
         match exec_db now d name parts oracle with
         | Some (r, d') =>
-            let ms := marks_strings d d' name parts r in
+            let ms := marks_strings d d' name parts r ++ marks_lists d d' name parts r ++ marks_streams d d' name parts r in
             (r, set_trk (set_db s dbi d') dbi (mark_all (get_trk s dbi) ms))
         | None => (FError (bs "ERR unknown command '" ++ name ++ bs "'"), s)
         end
@@ -394,6 +403,123 @@ Definition process_frame (now : Z) (s : server) (c : Z) (req : frame) (oracle : 
       | _ => (r_err, s)           (* "ERR invalid command format" *)
       end
   | _ => (r_err, s)               (* "ERR invalid request format" *)
+  end.
+
+(** ---- pub/sub at the server level (server.rs handle_publish / handle_subscribe /
+    handle_unsubscribe / handle_psubscribe / handle_punsubscribe; frames of pubsub.rs) ----
+    These five commands are dispatched in process_frame after the transaction-control commands
+    and before AUTH and the queueing test (so they run immediately inside MULTI: class
+    tx-immediate).  Their handlers write frames straight into connection write buffers
+    ([direct]: pushed messages to subscribers - possibly the issuing connection itself - and
+    the confirmations to the issuer) and return a frame ([resp]: the PUBLISH count, or
+    NoResponse) that the connection loop appends after them. *)
+Definition msg_frame (ch msg : bytes) : frame :=
+  FArray [FBulk (bs "message"); FBulk ch; FBulk msg].
+Definition pmsg_frame (p ch msg : bytes) : frame :=
+  FArray [FBulk (bs "pmessage"); FBulk p; FBulk ch; FBulk msg].
+Definition ack_frame (kind name : bytes) (n : Z) : frame := FArray [FBulk kind; FBulk name; FInt n].
+Definition ack_nil_frame (kind : bytes) (n : Z) : frame := FArray [FBulk kind; FNullBulk; FInt n].
+Definition push_frame (ch msg : bytes) (r : receiver) : Z * frame :=
+  (fst r, match snd r with Some p => pmsg_frame p ch msg | None => msg_frame ch msg end).
+
+Fixpoint all_bulk (l : list frame) : option (list bytes) :=
+  match l with
+  | [] => Some []
+  | FBulk b :: r => match all_bulk r with Some bs' => Some (b :: bs') | None => None end
+  | _ :: _ => None
+  end.
+Definition has_conn (s : server) (c : Z) : bool :=
+  match zlookup c (s_conns s) with Some _ => true | None => false end.
+Definition sub_total (p : pubsub) (c : Z) : Z :=
+  len (si_ch (conn_info p c)) + len (si_pat (conn_info p c)).
+
+(** PUBLISH: one frame per entry of PubSubManager::publish (best effort: a receiver id without
+    a connection is skipped), reply = number of entries *)
+Definition h_publish (s : server) (parts : list frame) : list (Z * frame) * frame * server :=
+  match parts with
+  | [_; FBulk ch; FBulk msg] =>
+      let rc := publish (s_pubsub s) ch in
+      (map (push_frame ch msg) (filter (fun r => has_conn s (fst r)) rc), FInt (len rc), s)
+  | _ => ([], r_err, s)           (* arity, "invalid channel format", "invalid message format" *)
+  end.
+
+Definition h_sub (chan : bool) (s : server) (c : Z) (parts : list frame)
+  : list (Z * frame) * frame * server :=
+  if len parts <? 2 then ([], r_err, s) else
+  match all_bulk (tl parts) with
+  | None => ([], r_err, s)
+  | Some names =>
+      let kind := if chan then bs "subscribe" else bs "psubscribe" in
+      match (if chan then subscribe (s_pubsub s) c names else psubscribe (s_pubsub s) c names) with
+      | (rs, p') => (map (fun r => (c, ack_frame kind (r_name r) (r_count r))) rs, FNoResponse, set_pubsub s p')
+      end
+  end.
+
+(** after 68e2e20: when PubSubManager returns no result (nothing to unsubscribe from) the
+    handler still confirms - per requested name with the remaining count, or a single
+    [kind, nil, remaining] when none was named *)
+Definition h_unsub (chan : bool) (s : server) (c : Z) (parts : list frame)
+  : list (Z * frame) * frame * server :=
+  let kind := if chan then bs "unsubscribe" else bs "punsubscribe" in
+  match (match tl parts with [] => Some None | l => option_map Some (all_bulk l) end) with
+  | None => ([], r_err, s)
+  | Some req =>
+      match (if chan then unsubscribe (s_pubsub s) c req else punsubscribe (s_pubsub s) c req) with
+      | (rs, p') =>
+          let s' := set_pubsub s p' in
+          match rs with
+          | [] =>
+              let remaining := sub_total p' c in
+              (match req with
+               | Some l => map (fun n => (c, ack_frame kind n remaining)) l
+               | None => [(c, ack_nil_frame kind remaining)]
+               end, FNoResponse, s')
+          | _ => (map (fun r => (c, ack_frame kind (r_name r) (r_count r))) rs, FNoResponse, s')
+          end
+      end
+  end.
+
+(** Closing connections (QUIT, protocol error, EOF read from the client): cleanup_connections
+    removes them at the end of the same loop iteration, together with their subscriptions
+    (after the repair 4bdfa3e it no longer skips connections that are still subscribed) *)
+Definition close_conn (s : server) (c : Z) : server := del_conn s c.
+
+(** process_frame with the pub/sub commands: (frames written directly into connection buffers,
+    in order; the frame returned to the connection loop; state) *)
+Definition process_frame_x (now : Z) (s : server) (c : Z) (req : frame) (oracle : option frame)
+  : list (Z * frame) * frame * server :=
+  let other := match process_frame now s c req oracle with (r, s') => ([], r, s') end in
+  match req with
+  | FArray (FBulk nm :: rest) =>
+      let parts := FBulk nm :: rest in
+      let command := upper (trim nm) in
+      match zlookup c (s_conns s) with
+      | None => other
+      | Some cn =>
+          if (match s_password s with Some _ => true | None => false end) && negb (c_auth cn) then other
+          else if beq command (bs "PUBLISH") then h_publish s parts
+          else if beq command (bs "SUBSCRIBE") then h_sub true s c parts
+          else if beq command (bs "PSUBSCRIBE") then h_sub false s c parts
+          else if beq command (bs "UNSUBSCRIBE") then
+            h_unsub true s c parts
+          else if beq command (bs "PUNSUBSCRIBE") then
+            h_unsub false s c parts
+          else other
+      end
+  | _ => other
+  end.
+
+(** what one request read alone produces: the frames for the issuing connection, in order
+    (pushed messages it receives itself, confirmations, then the reply unless NoResponse), and
+    the frames pushed to other connections, in order *)
+Definition own_frames (c : Z) (direct : list (Z * frame)) (resp : frame) : list frame :=
+  map snd (filter (fun e => fst e =? c) direct) ++ (match resp with FNoResponse => [] | r => [r] end).
+Definition other_frames (c : Z) (direct : list (Z * frame)) : list (Z * frame) :=
+  filter (fun e => negb (fst e =? c)) direct.
+Definition process_frame_multi (now : Z) (s : server) (c : Z) (req : frame) (oracle : option frame)
+  : list frame * list (Z * frame) * server :=
+  match process_frame_x now s c req oracle with
+  | (direct, resp, s') => (own_frames c direct resp, other_frames c direct, s')
   end.
 
 (** the connection loop's special case: QUIT answers, then the connection is closed *)
